@@ -1,7 +1,7 @@
 #!/usr/bin/env python3
 """Developer tool: confirm a candidate breaking change delivered by a sub-agent and file it under seeded/.
 
-  tools/confirm_seed.py <Cxx> <worktree> <m-dir-name> [extra demo sources relative to the worktree ...]
+  tools/confirm_seed.py <Cxx> <worktree> <dir with patch.diff/demo.cpp/README.md> <name> [extra demo sources relative to the worktree ...]
 
 In the scratch worktree (never /repo): (1) demo passes on the clean tree; (2) with patch.diff applied the project builds
 (cmake, RelWithDebInfo) and the 46 pinned tests pass; (3) the demo fails; (4) the registered quick check of the property
@@ -13,9 +13,7 @@ import sys
 from pathlib import Path
 
 VERIF = Path(__file__).resolve().parents[1]
-pid, wt, mname, extra = sys.argv[1], Path(sys.argv[2]), sys.argv[3], sys.argv[4:]
-mdir = wt / "MUTATIONS" / mname
-srcdir = Path(__import__("os").environ.get("MUT_SRC", str(mdir)))
+pid, wt, mdir, mname, extra = sys.argv[1], Path(sys.argv[2]), Path(sys.argv[3]).resolve(), sys.argv[4], sys.argv[5:]
 props = {json.loads(l)["id"]: json.loads(l) for l in (VERIF / "properties.jsonl").read_text().splitlines() if l.strip()}
 
 
@@ -25,7 +23,7 @@ def sh(cmd, **kw):
 
 def demo():
     (wt / "_scratch").mkdir(exist_ok=True)
-    c = sh(f"g++ -std=c++20 -O1 -I include -I . MUTATIONS/{mname}/demo.cpp {' '.join(extra)} -o _scratch/demo_{mname} -lpthread")
+    c = sh(f"g++ -std=c++20 -O1 -I include -I . {mdir}/demo.cpp {' '.join(extra)} -o _scratch/demo_{mname} -lpthread")
     if c.returncode != 0:
         return None, c.stderr[-2000:]
     r = sh(f"timeout 300 ./_scratch/demo_{mname}")
@@ -36,7 +34,7 @@ ran = []
 sh("git checkout -q -- .")
 rc_clean, out_clean = demo()
 ran.append(f"clean tree: demo exit {rc_clean}")
-a = sh(f"git apply MUTATIONS/{mname}/patch.diff")
+a = sh(f"git apply {mdir}/patch.diff")
 assert a.returncode == 0, a.stderr
 rc_mut, out_mut = demo()
 ran.append(f"with patch: demo exit {rc_mut}")
